@@ -70,7 +70,7 @@ pub fn crypto_kdf_derive_from_key(
         salt[..8].copy_from_slice(&subkey_id.to_le_bytes());
 
         let state = blake2b::State::init(
-            CRYPTO_KDF_KEYBYTES as u8,
+            subkey.len() as u8,
             Some(main_key),
             Some(&salt),
             Some(&ctx_padded),
